@@ -979,7 +979,7 @@ def run(ctx):
         for bucket, msg in res["failures"]:
             ctx.fail(bucket, {"rec": rec}, msg)
 
-    ctx.hyp(prop, gm.metadata(), max_examples=ctx.scale(480, 16000),
+    ctx.hyp(prop, gm.metadata(), max_examples=ctx.scale(320, 12000),
             key=lambda rec: rec, shrink_budget=24)
 
 
